@@ -2,6 +2,7 @@ package vh
 
 import (
 	"encoding/json"
+	"errors"
 	"flag"
 	"fmt"
 	"os"
@@ -43,6 +44,11 @@ func termRun(c *TermCase, set []int) (kind string, v *Violation) {
 			}
 			if o.Bool {
 				app.Var(cli.VarOpt{Name: o.DeclName(), Value: &BRec{}, EnvVar: env})
+			} else if i%3 == 1 {
+				// a legitimate value type that is neither hashable nor comparable (a map used by value)
+				app.Var(cli.VarOpt{Name: o.DeclName(), Value: MapRec{}, EnvVar: env})
+			} else if i%3 == 2 {
+				app.Var(cli.VarOpt{Name: o.DeclName(), Value: &VRec{}, EnvVar: env})
 			} else {
 				app.Var(cli.VarOpt{Name: o.DeclName(), Value: &Rec{}, EnvVar: env})
 			}
@@ -50,7 +56,11 @@ func termRun(c *TermCase, set []int) (kind string, v *Violation) {
 				os.Unsetenv(env)
 			}
 		}
-		for _, a := range c.Args {
+		for i, a := range c.Args {
+			if i%2 == 1 {
+				app.Var(cli.VarArg{Name: a, Value: MapRec{}})
+				continue
+			}
 			app.Var(cli.VarArg{Name: a, Value: &Rec{}})
 		}
 		app.Spec = spec
@@ -65,6 +75,9 @@ func termRun(c *TermCase, set []int) (kind string, v *Violation) {
 	}
 	if out.PanicVal != nil {
 		pe, ok := out.PanicVal.(*lexer.ParseError)
+		if err, isErr := out.PanicVal.(error); !ok && isErr {
+			ok = errors.As(err, &pe) // a spec error wrapped in another error is still the documented outcome
+		}
 		if !ok {
 			return "", Violf("Run died with a runtime panic instead of a documented outcome (%s): %s", out.Panic, ctx)
 		}
